@@ -99,48 +99,58 @@ func driveTunnel(c *h.Case, conn net.Conn, br *bufio.Reader, head []byte, tag st
 
 func runMux(c *h.Case, s *muxSpec) {
 	e := env(s.T.Server)
-	tag := tagFor(c, 0)
 	lines := s.lines()
 	host := styleHost(s.T.Host, s.HostStyle, e.MuxPort)
 	var b bytes.Buffer
-	switch s.Method {
-	case "GET":
-		fmt.Fprintf(&b, "GET http://%s/ HTTP/%s\r\n", host, s.Version)
-	default:
-		authority := host
-		if s.HostStyle != "port" {
-			authority = host + ":443"
+	build := func(tag string) []byte {
+		b.Reset()
+		switch s.Method {
+		case "GET":
+			fmt.Fprintf(&b, "GET http://%s/ HTTP/%s\r\n", host, s.Version)
+		default:
+			authority := host
+			if s.HostStyle != "port" {
+				authority = host + ":443"
+			}
+			fmt.Fprintf(&b, "%s %s HTTP/%s\r\n", s.Method, authority, s.Version)
 		}
-		fmt.Fprintf(&b, "%s %s HTTP/%s\r\n", s.Method, authority, s.Version)
-	}
-	switch s.HostHdr {
-	case "same":
-		fmt.Fprintf(&b, "Host: %s\r\n", host)
-	case "decoy":
-		b.WriteString("Host: open.mw.test\r\n")
-	}
-	for _, l := range lines {
-		fmt.Fprintf(&b, "%s: %s\r\n", l.Name, l.Value)
-	}
-	fmt.Fprintf(&b, "X-Verif-Tag: %s\r\n\r\n", tag)
-	c.Ev("request", "raw", b.String())
-	register(c, tag, lines, func(rec seenRec, bk *backend) string {
-		if bk.Cred.User == "" {
-			return "tcpmux-password-only-not-enforced"
+		switch s.HostHdr {
+		case "same":
+			fmt.Fprintf(&b, "Host: %s\r\n", host)
+		case "decoy":
+			b.WriteString("Host: open.mw.test\r\n")
 		}
-		return "tcpmux-forwarded-without-credentials"
-	}, nil)
-
-	conn, err := net.DialTimeout("tcp", fmt.Sprintf("127.0.0.1:%d", e.MuxPort), 5*time.Second)
-	if err != nil {
+		for _, l := range lines {
+			fmt.Fprintf(&b, "%s: %s\r\n", l.Name, l.Value)
+		}
+		fmt.Fprintf(&b, "X-Verif-Tag: %s\r\n\r\n", tag)
+		return b.Bytes()
+	}
+	exchange := func(sub int) (tunnelResult, []string, bool) {
+		tag := tagFor(c, sub)
+		raw := build(tag)
+		c.Ev("request", "raw", string(raw))
+		register(c, tag, lines, func(rec seenRec, bk *backend) string {
+			if bk.Cred.User == "" {
+				return "tcpmux-password-only-not-enforced"
+			}
+			return "tcpmux-forwarded-without-credentials"
+		}, nil)
+		conn, err := net.DialTimeout("tcp", fmt.Sprintf("127.0.0.1:%d", e.MuxPort), 5*time.Second)
+		if err != nil {
+			return tunnelResult{}, nil, false
+		}
+		defer conn.Close()
+		res := driveTunnel(c, conn, bufio.NewReader(conn), raw, tag, 15*time.Second)
+		c.Ev("result", "res", res)
+		run.Count("tcpmux_connects", 1)
+		return res, judgeSeen(c, tag), true
+	}
+	res, ids, dialed := exchange(0)
+	if !dialed {
 		run.Inconclusive("tcpmux: dial failed")
 		return
 	}
-	defer conn.Close()
-	res := driveTunnel(c, conn, bufio.NewReader(conn), b.Bytes(), tag, 15*time.Second)
-	c.Ev("result", "res", res)
-	run.Count("tcpmux_connects", 1)
-	ids := judgeSeen(c, tag)
 	has := carries(lines, s.T.Focus)
 	if s.T.Simple && !has && c.Violations() == 0 {
 		if res.Backend != "" {
@@ -151,13 +161,31 @@ func runMux(c *h.Case, s *muxSpec) {
 		run.Count("tcpmux_refusals_checked", 1)
 	}
 	if s.T.Control != "" && s.Method == "CONNECT" && s.Version == "1.1" && s.HostStyle == "plain" && s.HostHdr == "same" && canonicalProxyAuth(lines, s.T.Focus) {
-		okSeen := false
-		for _, id := range ids {
-			if id == s.T.Control {
-				okSeen = true
+		good := func() bool {
+			if res.Backend != s.T.Control {
+				return false
 			}
+			for _, id := range ids {
+				if id == s.T.Control {
+					return true
+				}
+			}
+			return false
 		}
-		if res.Backend != s.T.Control || !okSeen {
+		refusedAuth := func() bool {
+			for _, st := range res.Statuses {
+				if st == 407 {
+					return true
+				}
+			}
+			return false
+		}
+		for try := 1; try <= 2 && !good() && !refusedAuth(); try++ {
+			time.Sleep(time.Duration(try) * 500 * time.Millisecond)
+			run.Count("positive_control_retries", 1)
+			res, ids, _ = exchange(try)
+		}
+		if !good() {
 			c.Violation("tcpmux-exact-credentials-refused", "tcpmux CONNECT to %s with the exact credentials %v in Proxy-Authorization: responses %v, tunnel answered by %q, backends that saw it %v (want %s)",
 				s.T.Host, s.T.Focus, res.Statuses, res.Backend, ids, s.T.Control)
 		}
@@ -168,7 +196,7 @@ func runMux(c *h.Case, s *muxSpec) {
 	}
 	run.Distinct(fmt.Sprintf("tcpmux|%s|%s|%s|%s|%s|%s|A=%s/%s|PA=%s/%s", s.T.Server, s.T.Table, s.Method, s.Version, s.HostStyle, s.HostHdr, kindsSig(s.A), s.AName, kindsSig(s.PA), s.PAName))
 	if c.Idx%1999 == 0 {
-		run.Sample(map[string]any{"surface": "tcpmux", "request": b.String(), "result": res, "backends": ids})
+		run.Sample(map[string]any{"surface": "tcpmux", "request": string(build("tag")), "result": res, "backends": ids})
 	}
 }
 
@@ -186,7 +214,7 @@ func genMux(rng *rand.Rand) []spec {
 			}
 		}
 	}
-	n := run.N(400, 6000)
+	n := run.N(800, 30000)
 	for i := 0; i < n; i++ {
 		out = append(out, spec{Mux: &muxSpec{T: pick(rng, muxTargets), Method: pick(rng, []string{"CONNECT", "CONNECT", "CONNECT", "connect", "GET"}),
 			Version: pick(rng, []string{"1.1", "1.1", "1.0"}), HostStyle: pick(rng, []string{"plain", "plain", "upper", "port", "dot"}),
